@@ -16,29 +16,29 @@ import (
 // E-NIL: a maybe-nil value is used without a dominating test, and the reason it cannot be nil here
 // E-PANIC: single-result assertions whose dynamic type is fixed by the library itself
 var frozenAsserts = map[string]string{
-	"(*oned.OneDReader).Decode:assert#0":                        "the ORIENTATION metadata value is only ever stored by doDecode as the int constant 180",
-	"(*qrcode/detector.FinderPatternFinder).Find:assert#0":      "ResultPoint_OrderBestPatterns returns the three values it was given, all *FinderPattern",
-	"(*qrcode/detector.FinderPatternFinder).Find:assert#1":      "see assert#0",
-	"(*qrcode/detector.FinderPatternFinder).Find:assert#2":      "see assert#0",
+	"(*oned.OneDReader).Decode:assert#0":                                   "the ORIENTATION metadata value is only ever stored by doDecode as the int constant 180",
+	"(*qrcode/detector.FinderPatternFinder).Find:assert#0":                 "ResultPoint_OrderBestPatterns returns the three values it was given, all *FinderPattern",
+	"(*qrcode/detector.FinderPatternFinder).Find:assert#1":                 "see assert#0",
+	"(*qrcode/detector.FinderPatternFinder).Find:assert#2":                 "see assert#0",
 	"(*multi/qrcode/detector.MultiFinderPatternFinder).FindMulti:assert#0": "ResultPoint_OrderBestPatterns returns the three *FinderPattern values it was given",
 	"(*multi/qrcode/detector.MultiFinderPatternFinder).FindMulti:assert#1": "see assert#0",
 	"(*multi/qrcode/detector.MultiFinderPatternFinder).FindMulti:assert#2": "see assert#0",
-	"gozxing.NewHybridBinarizer:assert#0":                       "NewGlobalHistgramBinarizer always returns a *GlobalHistogramBinarizer",
-	"gozxing.newException:assert#0":                             "discharged by E-FMTARG: every call of a New*Exception constructor passes a string as its first argument",
+	"gozxing.NewHybridBinarizer:assert#0":                                  "NewGlobalHistgramBinarizer always returns a *GlobalHistogramBinarizer",
+	"gozxing.newException:assert#0":                                        "discharged by E-FMTARG: every call of a New*Exception constructor passes a string as its first argument",
 }
 
 var frozenNilUses = map[string]string{
-	"(*datamatrix.DataMatrixWriter).Encode<-datamatrix/encoder.SymbolInfo_Lookup#0": "called with fail=true: the function then returns an error, never (nil, nil); that error cannot occur because EncodeHighLevel already performed the same lookup successfully (see the E-DROP row of this site)",
-	"qrcode/decoder.DataBlock_GetDataBlocks<-(*qrcode/decoder.Version).GetECBlocksForLevel#0":  "the level comes from FormatInformation, built by ErrorCorrectionLevel_ForBits on two bits: always one of L, M, Q, H (T-ECLEVEL)",
+	"(*datamatrix.DataMatrixWriter).Encode<-datamatrix/encoder.SymbolInfo_Lookup#0":           "called with fail=true: the function then returns an error, never (nil, nil); that error cannot occur because EncodeHighLevel already performed the same lookup successfully (see the E-DROP row of this site)",
+	"qrcode/decoder.DataBlock_GetDataBlocks<-(*qrcode/decoder.Version).GetECBlocksForLevel#0": "the level comes from FormatInformation, built by ErrorCorrectionLevel_ForBits on two bits: always one of L, M, Q, H (T-ECLEVEL)",
 }
 
 // E-KIND: (caller -> callee) rows where a callee that can produce a raw error cannot fail at that site
 var frozenRawGuards = map[string]string{
-	"(*gozxing.GlobalHistogramBinarizer).GetBlackMatrix -> gozxing.NewBitMatrix":                          "width, height >= 1: every image has at least one pixel (the property's own quantifier)",
-	"(*qrcode/decoder.BitMatrixParser).ReadVersion -> qrcode/decoder.Version_GetVersionForNumber":         "provisionalVersion is in 1..6 here: NewBitMatrixParser accepted only dimension >= 21 with dimension mod 4 == 1, and this return is under `provisionalVersion <= 6`",
-	"datamatrix/decoder.decodeBase256Segment -> (*golang.org/x/text/encoding.Decoder).Bytes":              "ISO-8859-1 decoding is total: every byte value maps to a code point",
-	"(*oned.OneDReader).Decode -> (*gozxing.BinaryBitmap).RotateCounterClockwise":                         "reached only under `image.IsRotateSupported()`, the capability test that makes RotateCounterClockwise succeed",
-	"(*oned.OneDReader).doDecode -> (*gozxing.BinaryBitmap).GetBlackRow":                                  "the row number passed `rowNumber < 0 || rowNumber >= height -> break` just above, so GetRow cannot report a range error; the remaining error is NotFound",
+	"(*gozxing.GlobalHistogramBinarizer).GetBlackMatrix -> gozxing.NewBitMatrix":                             "width, height >= 1: every image has at least one pixel (the property's own quantifier)",
+	"(*qrcode/decoder.BitMatrixParser).ReadVersion -> qrcode/decoder.Version_GetVersionForNumber":            "provisionalVersion is in 1..6 here: NewBitMatrixParser accepted only dimension >= 21 with dimension mod 4 == 1, and this return is under `provisionalVersion <= 6`",
+	"datamatrix/decoder.decodeBase256Segment -> (*golang.org/x/text/encoding.Decoder).Bytes":                 "ISO-8859-1 decoding is total: every byte value maps to a code point",
+	"(*oned.OneDReader).Decode -> (*gozxing.BinaryBitmap).RotateCounterClockwise":                            "reached only under `image.IsRotateSupported()`, the capability test that makes RotateCounterClockwise succeed",
+	"(*oned.OneDReader).doDecode -> (*gozxing.BinaryBitmap).GetBlackRow":                                     "the row number passed `rowNumber < 0 || rowNumber >= height -> break` just above, so GetRow cannot report a range error; the remaining error is NotFound",
 	"qrcode/decoder.Version_GetProvisionalVersionForDimension -> qrcode/decoder.Version_GetVersionForNumber": "pass-through helper used by the detector only with a computed dimension; its callers wrap the error (ProcessFinderPatternInfo -> WrapFormatException)",
 }
 
@@ -503,8 +503,8 @@ func hasDifference(v ssa.Value, depth int) bool {
 }
 
 var frozenMake = map[string]string{
-	"(*common/reedsolomon.GenericGFPoly).Multiply:make#0":          "aLength + bLength - 1 with both coefficient lists non-empty (NewGenericGFPoly rejects empty lists)",
-	"(*aztec/decoder.Decoder).correctBits:make#1":                  "stuffedBits counts at most one position per data codeword, each codeword having codewordSize >= 6 bits, so the difference is >= 0",
+	"(*common/reedsolomon.GenericGFPoly).Multiply:make#0":           "aLength + bLength - 1 with both coefficient lists non-empty (NewGenericGFPoly rejects empty lists)",
+	"(*aztec/decoder.Decoder).correctBits:make#1":                   "stuffedBits counts at most one position per data codeword, each codeword having codewordSize >= 6 bits, so the difference is >= 0",
 	"(*common/reedsolomon.GenericGFPoly).MultiplyByMonomial:make#0": "size + degree with degree >= 0 checked above",
 	"(oned.codabarEncoder).encodeWithHints:make#0":                  "contents has at least two characters on this path (shorter input gets the default guards added), so len(contents) - 1 >= 1 and resultLength starts at 20",
 }
